@@ -287,8 +287,20 @@ impl NaturalRange {
     where
         F: FnMut(NaturalBound, NaturalBound) -> NaturalBound,
     {
+        // An unbounded lower bound is zero (not infinity), so it must be zero when given to `f`.
+        fn closed(bound: NaturalBound) -> NaturalBound {
+            match bound {
+                Variance::Variant(Unbounded) => Variance::Invariant(Zero),
+                bound => bound,
+            }
+        }
+
         let lhs = self;
-        let lower = f(lhs.lower().into_bound(), rhs.lower().into_bound()).into_lower();
+        let lower = f(
+            closed(lhs.lower().into_bound()),
+            closed(rhs.lower().into_bound()),
+        )
+        .into_lower();
         let upper = f(lhs.upper().into_bound(), rhs.upper().into_bound()).into_upper();
         Self::from_closed_and_open(lower.into_usize(), upper.into_usize())
     }
